@@ -1,7 +1,7 @@
 SPECIFICATION Spec
-CONSTANTS MaxBr = 4 MaxN = 7
-  Kinds <- KindsQuick
-  BufSizes <- BufThorough
+CONSTANTS MaxBr = 4 MaxN = 5
+  Kinds <- KindsSmall
+  BufSizes <- BufQuick
 INVARIANT OpEqDen
 INVARIANT OutIsPrefix
 INVARIANT BufBound
